@@ -84,6 +84,11 @@ impl Monitor for C12 {
     fn assumptions(&self) -> Vec<String> { vec!["line = bytes up to LF, an immediately preceding CR belongs to the line end".into()] }
     fn sizes(&self, tier: Tier) -> Sizes { match tier { Tier::Quick => Sizes { cases: 6_000, min_nontrivial: 1_000 }, Tier::Thorough => Sizes { cases: 150_000, min_nontrivial: 20_000 } } }
 
+    fn exhaustive_note(&self) -> Option<String> { Some("two cases with 300 and 600 input files in every run (kind=everyline)".into()) }
+    fn enumerate(&self, _tier: Tier, emit: &mut dyn FnMut(J)) {
+        for n in [300usize, 600] { let files: Vec<J> = (0..n).map(|i| json!([format!("file {} line 1", i), "\n", format!("file {} line 2", i), if i % 7 == 0 { "" } else { "\n" }])).collect(); emit(json!({"kind": "everyline", "files": files})); }
+    }
+
     fn generate(&self, rng: &mut Rng, tier: Tier) -> J {
         match rng.below(10) {
             0..=3 => {
